@@ -317,7 +317,7 @@ def numeric_half(R, mod):
     nbits = 14 if quick else 20
     nmax = 1 << nbits
     ks = list(range(0, 4)) if quick else list(range(0, 7))
-    fp_timeout = 100 if quick else 600
+    fp_timeout = 100 if quick else 300
     R.bounds = {'N (all digits of the numeral read as one integer)': f'0 <= N < 2^{nbits}',
                 'fractional digits k': f'{ks[0]}..{ks[-1]}', 'suffixes': 'all of the grammar (cpu: none, m; memory/storage: none, '
                 'K Ki M Mi G Gi T Ti P Pi), with/without leading "+", empty integer part, trailing "B"',
